@@ -119,7 +119,7 @@ mech("unwrap-empty-list-null",
 
 mech("unwrap-of-root-unwrap",
  "a repeated unwrap field whose element type is itself a root-unwrap (map) message: emitted *_unwrap.pb.go does not compile",
- [("C05","json/unwrap/{root-map,combined}/message*",["compile"],None),("C13","gobuild/feature/unwrap/{root-map,combined}/message/ctx/*",["compile"],None),("C13","gobuild/feature/unwrap/{root-map,combined}/message/nested-after-map/ctx/*",["compile"],None),
+ [("C05","json/unwrap/{root-map,combined}/message*",["compile"],None),("C13","gobuild/feature/unwrap/{root-map,combined}/message/ctx/*",["compile"],None),("C13","gobuild/feature/unwrap/{root-map,combined}/message/nested-after-map/ctx/*",["compile"],None),("C13","gobuild/feature/unwrap/{root-map,combined}/message/nested-in-fieldless-holder/ctx/*",["compile"],None),
   ("C07","tstype/unwrap/{root-map,combined}/message*",["compile"],None),("C06","oasjson/unwrap/{root-map,combined}/message*",["compile"],None)])
 
 mech("body-bind-resets-url-fields",
